@@ -110,6 +110,11 @@ func genKVs(t *rapid.T, label string, minN, maxN int, large bool) []KV {
 			v = Val{B: rapid.SliceOfN(rapid.Byte(), 1, 40).Draw(t, label+".v")}
 		case c <= 8 || !large:
 			v = Val{N: rapid.IntRange(50, 3000).Draw(t, label+".vn"), F: 'm', R: rapid.Bool().Draw(t, label+".vr")}
+			if rapid.IntRange(0, 14).Draw(t, label+".vmid") == 0 {
+				// records of 64 KiB and more, followed by further records (also in the quick tier; seeded change C07-L: such records are
+				// handed to the stream compressor without a copy while the producer already reuses their buffer)
+				v.N = rapid.SampledFrom([]int{64 * 1024, 70 * 1024, 112 * 1024, 200 * 1024}).Draw(t, label+".vmidn")
+			}
 		default:
 			v = Val{N: rapid.SampledFrom([]int{256 * 1024, 1024 * 1024, 2*1024*1024 - 100, 2 * 1024 * 1024}).Draw(t, label+".vbig"), F: 'L', R: rapid.Bool().Draw(t, label+".vr")}
 		}
